@@ -95,6 +95,22 @@ func IsStreamingPayload(str string) bool {
 		pt == payloadTypeStreamingSignedTrailer
 }
 
+// RemoveAwsChunked removes the "aws-chunked" value, which describes the
+// transfer of a streaming upload and not the object, from a
+// Content-Encoding header value. The remaining encodings are kept.
+func RemoveAwsChunked(contentEncoding string) string {
+	if !strings.Contains(contentEncoding, "aws-chunked") {
+		return contentEncoding
+	}
+	var kept []string
+	for _, enc := range strings.Split(contentEncoding, ",") {
+		if strings.TrimSpace(enc) != "aws-chunked" {
+			kept = append(kept, strings.TrimSpace(enc))
+		}
+	}
+	return strings.Join(kept, ",")
+}
+
 func NewChunkReader(ctx *fiber.Ctx, r io.Reader, authdata AuthData, region, secret string, date time.Time, debug bool) (io.Reader, error) {
 	decContLength := ctx.Get("X-Amz-Decoded-Content-Length")
 	if decContLength == "" {
